@@ -5,7 +5,9 @@
    *JsonArrayParser, i.e. encoding/json, does with a byte string), an arbitrary DeepEqual
    (`peq`), an arbitrary updater type switch (`typed`) and an ARBITRARY loader (`load`,
    `clear`: the rule manager); what is assumed about the loader is an explicit premise. *)
+From Coq Require Import Ascii String.
 From SG Require Import Base.Prelude Model.Datasource Model.DatasourceRef Proofs.DatasourceProofs.
+From SG Require Import Model.Json Model.DatasourceWire Proofs.JsonProofs Proofs.DatasourceWireProofs.
 
 Section C18_handler.
 
@@ -205,6 +207,173 @@ Example C18_file_nonvacuous :
   (f_mode st2, m_rules (snd (f_hs st2))) = (Closed, []).
 Proof. vm_compute. repeat split; reflexivity. Qed.
 
+(* ---- the JSON wire format ------------------------------------------------------------------ *)
+
+(* A rule list written in a module's JSON wire format decodes to exactly the rules it describes:
+   for each of the five schemas (0 flow, 1 system, 2 circuit breaker, 3 hotspot, 4 isolation; the
+   field names are the Go json tags) and EVERY rule list whose strings are printable ASCII
+   without quote and backslash, whose integers fit the Go field types and whose float fields are
+   JSON number literals, the decoder applied to the encoder's bytes returns that list: same
+   length, same order, no nil element, every field equal (float64 fields as literals; hotspot's
+   specific items as (kind, string, threshold) triples, from which conv_items — the transcription
+   of parseSpecificItems — computes the map). *)
+Theorem C18_wire_roundtrip : forall k l,
+  forallb (rule_ok (schema_of k)) l = true ->
+  decode (schema_of k) (encode (schema_of k) l) = Rules false (map Some l).
+Proof. intros k l. apply wire_roundtrip. apply schemas_ok. Qed.
+
+Theorem C18_wire_roundtrip_each :
+  (forall l, forallb (rule_ok flow_schema) l = true -> decode flow_schema (encode flow_schema l) = Rules false (map Some l)) /\
+  (forall l, forallb (rule_ok system_schema) l = true -> decode system_schema (encode system_schema l) = Rules false (map Some l)) /\
+  (forall l, forallb (rule_ok breaker_schema) l = true -> decode breaker_schema (encode breaker_schema l) = Rules false (map Some l)) /\
+  (forall l, forallb (rule_ok hotspot_schema) l = true -> decode hotspot_schema (encode hotspot_schema l) = Rules false (map Some l)) /\
+  (forall l, forallb (rule_ok isolation_schema) l = true -> decode isolation_schema (encode isolation_schema l) = Rules false (map Some l)).
+Proof.
+  exact (conj (C18_wire_roundtrip 0) (conj (C18_wire_roundtrip 1) (conj (C18_wire_roundtrip 2)
+        (conj (C18_wire_roundtrip 3) (C18_wire_roundtrip 4))))).
+Qed.
+
+(* the generic handler theorems instantiated with the wire decoder as the converter *)
+Section C18_wire.
+
+  Variable mgr : Type.
+  Variable peq     : wprop -> wprop -> bool.
+  Variable load    : list (option wrule) -> mgr -> mgr * lres.
+  Variable clear   : mgr -> mgr * lres.
+  Variable valid    : wrule -> bool.
+  Variable in_force : mgr -> list wrule.
+  Variable canon    : list wrule -> list wrule.
+
+  Notation WSpec := (LoaderSpec wprop wrule mgr peq wtyped load clear valid in_force canon).
+  Notation whandle k := (handle (wire_convert (schema_of k)) peq wtyped load clear).
+  Notation whandle_body k := (handle_body (wire_convert (schema_of k)) peq wtyped load clear).
+  Notation WSync := (Sync wtyped valid in_force canon).
+
+  (* C18_applied_exactly o C18_wire_roundtrip: handling the wire form of l puts exactly the valid
+     rules of l in force (or rejects the delivery as a whole, when the loader fails) *)
+  Theorem C18_wire_applied_exactly : WSpec -> forall k s l,
+    WSync s -> forallb (rule_ok (schema_of k)) l = true ->
+    let b := encode (schema_of k) l in
+    let s' := fst (whandle k s b) in
+    match snd (whandle_body k s b) with
+    | Returned RNil => in_force (mgr_of s') = canon (filter valid l)
+    | _ => last_of s' = last_of s /\ in_force (mgr_of s') = in_force (mgr_of s)
+    end.
+  Proof. intros [H1 [H2 [H3 [H4 H5]]]] k s l. apply wire_applied_exactly; auto. apply schemas_ok. Qed.
+
+  Theorem C18_wire_applied : WSpec -> loader_total load clear -> forall k s l,
+    WSync s -> forallb (rule_ok (schema_of k)) l = true ->
+    snd (whandle k s (encode (schema_of k) l)) = Returned RNil /\
+    in_force (mgr_of (fst (whandle k s (encode (schema_of k) l)))) = canon (filter valid l).
+  Proof. intros [H1 [H2 [H3 [H4 H5]]]] T k s l. apply wire_applied_total; auto. apply schemas_ok. Qed.
+
+  (* one corollary per module *)
+  Theorem C18_wire_applied_flow : WSpec -> loader_total load clear -> forall s l,
+    WSync s -> forallb (rule_ok flow_schema) l = true ->
+    snd (handle (wire_convert flow_schema) peq wtyped load clear s (encode flow_schema l)) = Returned RNil /\
+    in_force (mgr_of (fst (handle (wire_convert flow_schema) peq wtyped load clear s (encode flow_schema l)))) = canon (filter valid l).
+  Proof. intros W T. exact (C18_wire_applied W T 0). Qed.
+
+  Theorem C18_wire_applied_system : WSpec -> loader_total load clear -> forall s l,
+    WSync s -> forallb (rule_ok system_schema) l = true ->
+    snd (handle (wire_convert system_schema) peq wtyped load clear s (encode system_schema l)) = Returned RNil /\
+    in_force (mgr_of (fst (handle (wire_convert system_schema) peq wtyped load clear s (encode system_schema l)))) = canon (filter valid l).
+  Proof. intros W T. exact (C18_wire_applied W T 1). Qed.
+
+  Theorem C18_wire_applied_breaker : WSpec -> loader_total load clear -> forall s l,
+    WSync s -> forallb (rule_ok breaker_schema) l = true ->
+    snd (handle (wire_convert breaker_schema) peq wtyped load clear s (encode breaker_schema l)) = Returned RNil /\
+    in_force (mgr_of (fst (handle (wire_convert breaker_schema) peq wtyped load clear s (encode breaker_schema l)))) = canon (filter valid l).
+  Proof. intros W T. exact (C18_wire_applied W T 2). Qed.
+
+  Theorem C18_wire_applied_hotspot : WSpec -> loader_total load clear -> forall s l,
+    WSync s -> forallb (rule_ok hotspot_schema) l = true ->
+    snd (handle (wire_convert hotspot_schema) peq wtyped load clear s (encode hotspot_schema l)) = Returned RNil /\
+    in_force (mgr_of (fst (handle (wire_convert hotspot_schema) peq wtyped load clear s (encode hotspot_schema l)))) = canon (filter valid l).
+  Proof. intros W T. exact (C18_wire_applied W T 3). Qed.
+
+  Theorem C18_wire_applied_isolation : WSpec -> loader_total load clear -> forall s l,
+    WSync s -> forallb (rule_ok isolation_schema) l = true ->
+    snd (handle (wire_convert isolation_schema) peq wtyped load clear s (encode isolation_schema l)) = Returned RNil /\
+    in_force (mgr_of (fst (handle (wire_convert isolation_schema) peq wtyped load clear s (encode isolation_schema l)))) = canon (filter valid l).
+  Proof. intros W T. exact (C18_wire_applied W T 4). Qed.
+
+  (* the empty payload clears; what the decoder refuses is refused with everything kept *)
+  Theorem C18_wire_empty_clears : WSpec -> loader_total load clear -> forall k s,
+    WSync s ->
+    snd (whandle k s []) = Returned RNil /\ in_force (mgr_of (fst (whandle k s []))) = canon [].
+  Proof. intros [H1 [H2 [H3 [H4 H5]]]] T k s. apply wire_empty_total; auto. Qed.
+
+  Theorem C18_wire_reject_keeps : forall k s b,
+    decode (schema_of k) b = Undecodable -> whandle k s b = (s, Returned RErr).
+  Proof. intros k s b. apply wire_reject. Qed.
+
+End C18_wire.
+
+(* ---- non-vacuity of the wire theorems --------------------------------------------------------- *)
+
+Local Open Scope string_scope.
+
+Definition ex_flow : list wrule :=
+  [ [FStr (B "f1"); FStr (B "GET:/api/users"); FInt 1; FInt 0; FNum (B "12.5"); FInt 0; FStr [];
+     FInt 0; FInt 10; FInt 3; FInt 1000; FInt 0; FInt 0; FInt 0; FInt 0];
+    [FStr []; FStr (B "res b"); FInt 0; FInt 2; FNum (B "1e3"); FInt 1; FStr (B "ref"); FInt 500; FInt 0; FInt 0;
+     FInt 4294967295; FInt (-9223372036854775808); FInt 9223372036854775807; FInt 1; FInt 2] ].
+Definition ex_system : list wrule := [ [FStr (B "s"); FInt 4; FNum (B "0.75"); FInt (-1)] ].
+Definition ex_breaker : list wrule :=
+  [ [FStr []; FStr (B "a"); FInt 2; FInt 3000; FInt 18446744073709551615; FInt 1000; FInt 10; FInt 50; FNum (B "-0.5E-2"); FInt 1] ].
+Definition ex_hotspot : list wrule :=
+  [ [FStr (B "h"); FStr (B "a"); FInt 1; FInt 0; FInt (-1); FStr (B "uid"); FInt 5; FInt 0; FInt 3; FInt 1; FInt 100;
+     FItems [(0, B "7", 9); (1, B "vip user", 50); (2, B "true", 1); (3, B "1.25", 2); (0, B "x7", 1)]];
+    [FStr []; FStr []; FInt 0; FInt 0; FInt 0; FStr []; FInt 0; FInt 0; FInt 0; FInt 0; FInt 0; FItems []] ].
+Definition ex_isolation : list wrule := [ [FStr []; FStr (B "a"); FInt 0; FInt 4294967295]; [FStr (B "i2"); FStr []; FInt 0; FInt 0] ].
+
+Example C18_wire_roundtrip_nonvacuous :
+  forallb (rule_ok (schema_of 0)) ex_flow = true /\ forallb (rule_ok (schema_of 1)) ex_system = true /\
+  forallb (rule_ok (schema_of 2)) ex_breaker = true /\ forallb (rule_ok (schema_of 3)) ex_hotspot = true /\
+  forallb (rule_ok (schema_of 4)) ex_isolation = true /\
+  encode isolation_schema ex_isolation =
+    B "[{""id"":"""",""resource"":""a"",""metricType"":0,""threshold"":4294967295},{""id"":""i2"",""resource"":"""",""metricType"":0,""threshold"":0}]" /\
+  decode hotspot_schema (encode hotspot_schema ex_hotspot) = Rules false (map Some ex_hotspot) /\
+  (* the same rules written the way a person would: other field order, whitespace, other case,
+     omitted and unknown fields, a null element *)
+  decode isolation_schema (B " [ {""Threshold"": 4294967295, ""resource"" : ""a"", ""comment"": {""x"": [1, null]}},
+      null ] ") = Rules false [Some [FStr []; FStr (B "a"); FInt 0; FInt 4294967295]; None] /\
+  (* and payloads that are refused: wrong type, out of range for uint32, truncated *)
+  decode isolation_schema (B "[{""resource"":5}]") = Undecodable /\
+  decode isolation_schema (B "[{""threshold"":4294967296}]") = Undecodable /\
+  decode isolation_schema (B "[{""resource"":""a"",""thresh") = Undecodable /\
+  decode isolation_schema [] = Empty /\
+  (* parseSpecificItems on the first hotspot rule's items (the float kind through the oracle table) *)
+  conv_items [(B "1.25", Some 4608308318706860032%Z)] [(0, B "7", 9); (1, B "vip user", 50); (2, B "true", 1); (3, B "1.25", 2); (0, B "x7", 1)]
+    = [(KInt 7, 9); (KStr (B "vip user"), 50); (KBool true, 1); (KFlt 4608308318706860032, 2)].
+Proof. vm_compute. repeat split; reflexivity. Qed.
+
+(* the linked corollaries' premises are satisfiable, and a concrete delivery of wire bytes *)
+Example C18_wire_applied_nonvacuous :
+  LoaderSpec wprop wrule wmgr wpeq_never wtyped wload wclear wvalid win_force wcanon /\
+  loader_total wload wclear /\
+  Sync wtyped wvalid win_force wcanon winit /\
+  (let h := handle (wire_convert isolation_schema) wpeq_never wtyped wload wclear in
+   let '(s1, o1) := h winit (encode isolation_schema ex_isolation) in
+   let '(s2, o2) := h s1 (B "[{""resource"":""a"",""thresh") in
+   let '(s3, o3) := h s2 [] in
+   [o1; o2; o3] = [Returned RNil; Returned RErr; Returned RNil] /\
+   map (fun s : state wprop wmgr => win_force (mgr_of s)) [s1; s2; s3]
+     = [[[FStr []; FStr (B "a"); FInt 0; FInt 4294967295]]; [[FStr []; FStr (B "a"); FInt 0; FInt 4294967295]]; []]).
+Proof.
+  split; [|split; [|split]].
+  - repeat split.
+    + intros l m m' H. inversion H. reflexivity.
+    + intros l m m' r H Hr. inversion H. subst. congruence.
+    + intros m m' H. inversion H. reflexivity.
+    + intros m m' r H Hr. inversion H. subst. congruence.
+    + intros p q0 H. discriminate.
+  - split; intros; reflexivity.
+  - reflexivity.
+  - vm_compute. split; reflexivity.
+Qed.
+
 Print Assumptions C18_no_escape.
 Print Assumptions C18_no_escape_seq.
 Print Assumptions C18_reject_keeps.
@@ -218,3 +387,14 @@ Print Assumptions C18_idempotent_rejected.
 Print Assumptions C18_redeliver_in_force.
 Print Assumptions C18_file_converges.
 Print Assumptions C18_file_last_payload.
+Print Assumptions C18_wire_roundtrip.
+Print Assumptions C18_wire_roundtrip_each.
+Print Assumptions C18_wire_applied_exactly.
+Print Assumptions C18_wire_applied.
+Print Assumptions C18_wire_applied_flow.
+Print Assumptions C18_wire_applied_system.
+Print Assumptions C18_wire_applied_breaker.
+Print Assumptions C18_wire_applied_hotspot.
+Print Assumptions C18_wire_applied_isolation.
+Print Assumptions C18_wire_empty_clears.
+Print Assumptions C18_wire_reject_keeps.
